@@ -58,6 +58,32 @@ type Case struct {
 	Faces   [][]int `json:"faces,omitempty"`
 	// Big: vertex 2 of int / double properties carries a number that single precision cannot hold
 	Big bool `json:"big,omitempty"`
+	// Ladder/N describe a size-ladder file compactly (NV and Faces are derived, never stored):
+	//   cloud  N vertex records, no face element
+	//   faces  N faces over N+3 vertices: face f is the quad (f+3, f+1, f, f+2) when f%3 == 2,
+	//          else the triangle (f+2, f, f+1)
+	Ladder string `json:"ladder,omitempty"`
+	N      int    `json:"n,omitempty"`
+}
+
+// resolved fills in the vertex count and the faces of a generated (size-ladder) file.
+func (cs Case) resolved() Case {
+	switch cs.Ladder {
+	case "cloud":
+		cs.NV = cs.N
+	case "faces":
+		cs.NV = cs.N + 3
+		cs.HasFace = true
+		cs.Faces = make([][]int, cs.N)
+		for f := range cs.Faces {
+			if f%3 == 2 {
+				cs.Faces[f] = []int{f + 3, f + 1, f, f + 2}
+			} else {
+				cs.Faces[f] = []int{f + 2, f, f + 1}
+			}
+		}
+	}
+	return cs
 }
 
 // ---------------------------------------------------------------------------------------------
@@ -75,10 +101,17 @@ func salt(name string) int {
 var f32vals = []float64{0.1, -2.5, 3.25, 1.5e-3, 7, -0.5, 1.0 / 3}
 var f64vals = []float64{0.1, -2.7e-5, 1.0 / 3, 123456.789012345, -0.5, 2, 1e-9}
 
-func value(name, typ string, i int, big bool) float64 {
+// ucharPeriod: in size-ladder files 8-bit properties run with pairwise coprime prime periods, so
+// that a colour tuple identifies its vertex and no value sequence has a power-of-two period.
+var ucharPeriod = map[string]int{"red": 251, "green": 241, "blue": 239, "alpha": 233}
+
+func value(name, typ string, i int, big, ladder bool) float64 {
 	s := salt(name)
 	switch typ {
 	case "uchar":
+		if p, ok := ucharPeriod[name]; ok && ladder {
+			return float64((13 + 71*i + 19*s) % p)
+		}
 		return float64((13 + 71*i + 19*s) % 256)
 	case "int":
 		v := float64(7*i + s - 5)
@@ -108,7 +141,7 @@ func init() {
 		for _, n := range []string{"x", "y", "z", "nx", "red", "alpha", "s", "t", "intensity", "confidence"} {
 			for i := 0; i < 5; i++ {
 				for j := i + 1; j < 5; j++ {
-					if value(n, t, i, false) == value(n, t, j, false) {
+					if value(n, t, i, false, false) == value(n, t, j, false, false) {
 						panic(fmt.Sprintf("c08: values of %s/%s not vertex-unique (%d,%d)", n, t, i, j))
 					}
 				}
@@ -127,7 +160,7 @@ func (cs Case) file() (*plyref.File, plyref.Layout) {
 	for i := 0; i < cs.NV; i++ {
 		row := make([][]float64, len(cs.VProps))
 		for k, p := range cs.VProps {
-			row[k] = []float64{value(p.Name, p.Type, i, cs.Big)}
+			row[k] = []float64{value(p.Name, p.Type, i, cs.Big, cs.Ladder != "")}
 		}
 		ve.Rows = append(ve.Rows, row)
 	}
@@ -208,6 +241,11 @@ func eq(want, got float64, t plyref.Type, format string) bool {
 }
 
 func faceClass(cs Case) string {
+	if cs.Ladder != "" {
+		cl := cs
+		cl.Ladder = ""
+		return faceClass(cl) + "/size-ladder"
+	}
 	if !cs.HasFace {
 		return "no-face-element"
 	}
@@ -261,14 +299,16 @@ func site(stack string) string {
 
 func (k checker) eval(cs Case) {
 	c := k.c
+	compact := cs // recorded for replay: generated files stay (kind, n, layout)
+	cs = cs.resolved()
 	f, lay := cs.file()
 	data := plyref.Encode(f, lay)
 	// harness self-check: the reference parser reads back what the reference encoder wrote
 	if pf, err := plyref.Parse(data); err != nil {
-		c.HarnessError("reference parser rejects the reference encoder's file (%v): %s", err, caseKey(cs))
+		c.HarnessError("reference parser rejects the reference encoder's file (%v): %s", err, caseKey(compact))
 		return
 	} else if d := sameFile(f, pf); d != "" {
-		c.HarnessError("reference encoder/parser disagree (%s): %s", d, caseKey(cs))
+		c.HarnessError("reference encoder/parser disagree (%s): %s", d, caseKey(compact))
 		return
 	}
 	// the described mesh: stored images of the intended numbers
@@ -304,7 +344,7 @@ func (k checker) eval(cs Case) {
 		if !isAlarmed {
 			return
 		}
-		c.Violate(core.Violation{Site: site, Clause: clause, Class: class, Detail: detail + " | " + describe(cs), Case: cs})
+		c.Violate(core.Violation{Site: site, Clause: clause, Class: class, Detail: detail + " | " + describe(cs), Case: compact})
 	}
 	outcome := func() string {
 		var m *modeling.Mesh
@@ -414,7 +454,7 @@ func (k checker) eval(cs Case) {
 	if isAlarmed && cs.NV > 0 && len(cs.VProps) > 0 {
 		c.NontrivialHash(core.Hash(data))
 	}
-	c.Sample(scope, map[string]any{"case": cs, "bytes": len(data)})
+	c.Sample(scope, map[string]any{"case": compact, "bytes": len(data)})
 }
 
 func sortedInts(a []int) []int {
@@ -458,6 +498,54 @@ func matchTris(want, got *plyref.Corners, names []string, types []plyref.Type, f
 		}
 		return true
 	}
+	// linear fast path: the same triangles in the same order (any rotation each)
+	inOrder := nt == got.N/3
+	for t := 0; t < nt && inOrder; t++ {
+		ok := false
+		for r := 0; r < 3 && !ok; r++ {
+			ok = cornerEq(3*t, 3*t+r) && cornerEq(3*t+1, 3*t+(r+1)%3) && cornerEq(3*t+2, 3*t+(r+2)%3)
+		}
+		inOrder = ok
+	}
+	if inOrder {
+		return -1
+	}
+	if nt > 256 {
+		// large files: multiset of rotation-normalised triangles keyed by the float32 images of
+		// their corner values (n log n instead of the quadratic greedy search)
+		key := func(cm *plyref.Corners, t int) string {
+			var ks [3]string
+			for k := 0; k < 3; k++ {
+				var b strings.Builder
+				for _, n := range names {
+					a := cm.Attrs[n]
+					for c := 0; c < a.Width; c++ {
+						fmt.Fprintf(&b, "%08x,", math.Float32bits(float32(a.Vals[3*t+k][c])))
+					}
+				}
+				ks[k] = b.String()
+			}
+			best := ks[0] + ks[1] + ks[2]
+			for r := 1; r < 3; r++ {
+				if q := ks[r] + ks[(r+1)%3] + ks[(r+2)%3]; q < best {
+					best = q
+				}
+			}
+			return best
+		}
+		have := map[string]int{}
+		for u := 0; u < got.N/3; u++ {
+			have[key(got, u)]++
+		}
+		for t := 0; t < nt; t++ {
+			kk := key(want, t)
+			if have[kk] == 0 {
+				return t
+			}
+			have[kk]--
+		}
+		return -1
+	}
 	for t := 0; t < nt; t++ {
 		found := false
 		for u := 0; u < len(used) && !found; u++ {
@@ -480,6 +568,9 @@ func matchTris(want, got *plyref.Corners, names []string, types []plyref.Type, f
 
 // zeroFaces marks the one structural class in which vertex data depends on the face element.
 func zeroFaces(cs Case) string {
+	if cs.Ladder != "" {
+		return "/size-ladder" // sizes beyond the small scopes are their own input class
+	}
 	if cs.HasFace && len(cs.Faces) == 0 {
 		return "/face-element-with-zero-faces"
 	}
@@ -591,6 +682,9 @@ func describe(cs Case) string {
 	var ls []string
 	for _, l := range cs.FLists {
 		ls = append(ls, "list "+l.Count+" "+l.Type+" "+l.Name)
+	}
+	if cs.Ladder != "" {
+		return fmt.Sprintf("size-ladder %s n=%d: %s vertex[%d]{%s} face=%v{%s} (%d faces)", cs.Ladder, cs.N, cs.Format, cs.NV, strings.Join(ps, ", "), cs.HasFace, strings.Join(ls, ", "), len(cs.Faces))
 	}
 	return fmt.Sprintf("%s crlf=%v vertex[%d]{%s} face=%v{%s} faces=%v extras=%d", cs.Format, cs.CRLF, cs.NV, strings.Join(ps, ", "), cs.HasFace, strings.Join(ls, ", "), cs.Faces, len(cs.Extras))
 }
@@ -717,6 +811,7 @@ func run(c *core.Ctx) {
 	k.spellings(next)
 	k.counts(next)
 	k.mixed(next)
+	k.ladder(next)
 	k.permutations(next)
 	k.interleavings(next)
 }
@@ -1061,6 +1156,48 @@ func (k checker) counts(next func() bool) {
 			if nv == 3 {
 				k.eval(Case{Scope: "counts", Format: f, VProps: baseProps, NV: nv, HasFace: true, FLists: []FList{baseIdx}, Faces: [][]int{{0, 1, 2}}})
 				k.eval(Case{Scope: "counts", Format: f, VProps: baseProps, NV: nv, HasFace: true, FLists: []FList{baseIdx}, Faces: [][]int{{0, 1, 2}, {2, 1, 0}}})
+			}
+		}
+	}
+}
+
+// SL: size ladder. Thresholds a change may introduce (block sizes, chunked decoding) lie far above
+// the small scopes, so element counts 2^k-1, 2^k, 2^k+1 and one in between are run for k = 2..15
+// (thorough 2..17): files with n vertex records (point clouds) and files with n faces (triangles and
+// quads mixed, non-identity corner orders) with uchar / int / uint list counts (the int variant also
+// carries a texcoord list), double positions, float normals, 8-bit colours and an int scalar, in all
+// three encodings. Every record is unique and no value sequence has a power-of-two period.
+func (k checker) ladder(next func() bool) {
+	c := k.c
+	kmax := 15
+	if c.Thorough() {
+		kmax = 17
+	}
+	sizes := plyref.Ladder(2, kmax)
+	c.Bound("size_ladder", fmt.Sprintf("2^k-1, 2^k, 2^k+1, 3*2^(k-1)+1 for k=2..%d (%d sizes, largest %d)", kmax, len(sizes), sizes[len(sizes)-1]))
+	vprops := []VProp{{Name: "x", Type: "double"}, {Name: "y", Type: "double"}, {Name: "z", Type: "double"},
+		{Name: "nx", Type: "float"}, {Name: "ny", Type: "float"}, {Name: "nz", Type: "float"},
+		{Name: "red", Type: "uchar"}, {Name: "green", Type: "uchar"}, {Name: "blue", Type: "uchar"}, {Name: "intensity", Type: "int"}}
+	for _, n := range sizes {
+		for v := 0; v < 4; v++ {
+			if c.Expired() {
+				return
+			}
+			if !next() {
+				continue
+			}
+			cs := Case{Scope: "size-ladder/cloud", VProps: vprops, Ladder: "cloud", N: n}
+			switch v {
+			case 1:
+				cs = Case{Scope: "size-ladder/faces", VProps: vprops, Ladder: "faces", N: n, FLists: []FList{{Name: "vertex_indices", Count: "uchar", Type: "int"}}}
+			case 2:
+				cs = Case{Scope: "size-ladder/faces", VProps: vprops, Ladder: "faces", N: n,
+					FLists: []FList{{Name: "vertex_index", Count: "int", Type: "uint"}, {Name: "texcoord", Count: "int", Type: "float"}}}
+			case 3:
+				cs = Case{Scope: "size-ladder/faces", VProps: vprops, Ladder: "faces", N: n, FLists: []FList{{Name: "vertex_indices", Count: "uint", Type: "uint"}}}
+			}
+			for _, f := range plyref.Formats {
+				k.eval(cs.withFormat(f))
 			}
 		}
 	}
